@@ -22,7 +22,7 @@ def run(tier, prop="C01", opts=None):
     n, draws, shards = (160, 6, 4) if tier == "quick" else (3200, 24, 16)
     cases, specs = [], {}
     for i in range(n):
-        sc = rgen.gen_struct_case(g, i, dict(opts or {}, permuted=(i % 23 == 22)))
+        sc = rgen.gen_struct_case(g, i, dict(opts or {}, permuted=(i % 6 == 5)))
         code, di, df, kinds = rgen.render_case(sc, g, draws)
         sc.inputs = {"i": di, "f": df}
         cases.append(rt.Case(i, code, meta=sc, input_text=di))
@@ -52,7 +52,7 @@ def run(tier, prop="C01", opts=None):
         if e["got"] != e["want"]:
             what = "panic" if e["got"].startswith("PANIC") else "value"
             kc = "from" if kind.startswith("from") else "existing" if kind.endswith("existing") else "into"
-            sig = f"wrong_{what}|{sc.cell}|{sc.hint or '-'}|{kind}" if not sc.flags else "region|" + "+".join(sorted(sc.flags)) + f"|wrong_{what}|{kc}"
+            sig = f"wrong_{what}|{sc.cell}|{sc.hint or '-'}|{kind}" if not sc.flags else "region|" + "+".join(sorted(sc.flags)) + f"|wrong_{what}|{kc}|{sc.s_shape}"
             ck.violation(sig, dict(cell=sc.cell, input=sc.inputs["f" if fal else "i"], conversion=e["conv"], source=e["src"], got=e["got"], want=e["want"]))
         elif len(ck.samples) < 3 and len(sc.sf) >= 3 and e["draw"] == 0:
             ck.sample(dict(input=sc.inputs["f" if fal else "i"], conversion=e["conv"], source=e["src"], got=e["got"]))
